@@ -131,6 +131,7 @@ func main() {
 		}
 	}
 	// 2. call sequences, in process
+	oversizedReport(run)
 	for s := 0; s < *nseq; s++ {
 		r := hx.Rng(*seed, s)
 		g := dbx.NewGen(r, "general")
@@ -142,6 +143,10 @@ func main() {
 		ops := []interface{}{}
 		fail := func(clause, sig, what string) {
 			run.Violate(hx.Violation{Property: "C17", Clause: clause, Signature: sig, What: what, Seq: s, OpIndex: len(ops), Ops: append([]interface{}{}, ops...)})
+			if sig == "submit-outcome" {
+				// C13 "the outcome tells the caller who won", at the service level
+				run.Violate(hx.Violation{Property: "C13", Clause: "definition_outcome", Signature: sig, What: what, Seq: s, OpIndex: len(ops), Ops: append([]interface{}{}, ops...)})
+			}
 		}
 		emit := func(op interface{}, res string) {
 			ops = append(ops, op)
@@ -372,6 +377,30 @@ func main() {
 					res = b.String()
 				}
 				emit(map[string]interface{}{"op": "getstates", "ids": ids}, res)
+				// oracle: the answer covers exactly the requested shards, in order; a request naming a shard Drummer has no
+				// view of is refused as a whole (the view's shard set is read through another query)
+				if cl, cerr := srv.GetShardConfigChangeIndexList(ctx(), &pb.Empty{}); cerr == nil && len(ids) > 0 {
+					allKnown := true
+					for _, id := range ids {
+						if _, ok := cl.Indexes[id]; !ok {
+							allKnown = false
+						}
+					}
+					switch {
+					case !allKnown && err == nil:
+						fail("query_reflects_state", "states-for-unknown-shard", fmt.Sprintf("GetShardStates(%v) was answered although Drummer has no view of one of the shards (views: %v)", ids, cl.Indexes))
+					case allKnown && err != nil:
+						fail("query_reflects_state", "states-refused-for-known-shards", fmt.Sprintf("GetShardStates(%v) was refused although Drummer has a view of every shard", ids))
+					case allKnown:
+						okOrder := len(st.Collection) == len(ids)
+						for k := 0; okOrder && k < len(ids); k++ {
+							okOrder = st.Collection[k].ShardId == ids[k] && st.Collection[k].ConfigChangeIndex == cl.Indexes[ids[k]]
+						}
+						if !okOrder {
+							fail("query_reflects_state", "states-not-the-requested-shards", fmt.Sprintf("GetShardStates(%v) answered %s", ids, res))
+						}
+					}
+				}
 			default:
 				di, err := srv.GetDeploymentInfo(ctx(), &pb.Empty{})
 				res := "did error"
@@ -386,6 +415,43 @@ func main() {
 			run.Sample(ops[:min(len(ops), 6)])
 		}
 		h.Close()
+	}
+}
+
+// oversizedReport: an update that dragonboat refuses (the report does not fit the shard's in-memory log limit). Whatever
+// the service answers, an acknowledged report must have been applied.
+func oversizedReport(run *hx.Run) {
+	h := nhx.NewDrummerDBHostLimit(64 * 1024)
+	defer h.Close()
+	srv := drummer.VerifNewServer(h.NH)
+	for _, n := range []int{10, 20000} {
+		addr := fmt.Sprintf("big%d", n)
+		nhi := &pb.NodeHostInfo{RaftAddress: addr, RPCAddress: "rpc-" + addr, Region: "reg0", PlogInfoIncluded: true}
+		for i := 0; i < n; i++ {
+			nhi.PlogInfo = append(nhi.PlogInfo, &pb.LogInfo{ShardId: uint64(1 + i%50), ReplicaId: uint64(1 + i)})
+		}
+		_, err := srv.ReportAvailableNodeHost(ctx(), nhi)
+		nc, cerr := srv.GetNodeHostCollection(ctx(), &pb.Empty{})
+		if cerr != nil {
+			run.Count("c17:inconclusive_oversized_report")
+			continue
+		}
+		listed := false
+		for _, v := range nc.Collection {
+			if v.RaftAddress == addr {
+				listed = true
+			}
+		}
+		run.Count(fmt.Sprintf("case:report_%d_log_records_acknowledged_%v", n, err == nil))
+		if err == nil && !listed {
+			run.Violate(hx.Violation{Property: "C17", Clause: "report_then_read", Signature: "acknowledged-report-not-applied",
+				What: fmt.Sprintf("a report carrying %d log records was acknowledged (no error) although it was not applied: the NodeHost is not in GetNodeHostCollection", n),
+				Ops:  []string{fmt.Sprintf("DB shard with MaxInMemLogSize=64KB; ReportAvailableNodeHost(%s with %d log records); GetNodeHostCollection", addr, n)}})
+		}
+		if err != nil && listed {
+			run.Violate(hx.Violation{Property: "C17", Clause: "report_then_read", Signature: "failed-report-applied",
+				What: fmt.Sprintf("a report carrying %d log records failed (%v) but was applied", n, err)})
+		}
 	}
 }
 
